@@ -1215,3 +1215,41 @@ Proof.
   rewrite EX. cbn [andb]. change (0 =? 0) with true. change (-1 =? -1)%Z with true. cbn [andb].
   rewrite (sc_auth_hmac_iff p bs1 Hwf Hk ML), MS. apply eqb_reflx.
 Qed.
+
+(* ------------------------------------------------------------------ parse injectivity, all forms *)
+Theorem st_parse_injective : forall bs bs' d h pl tg d' h' pl' tg' rest,
+  st_decode bs = Some (d, h, pl, tg, rest) -> st_decode bs' = Some (d', h', pl', tg', rest) ->
+  bs <> bs' -> (h, pl, tg) <> (h', pl', tg').
+Proof.
+  intros bs bs' d h pl tg d' h' pl' tg' rest H H' Hne E. injection E as <- <- <-.
+  apply st_decode_spec in H. apply st_decode_spec in H'. destruct H as (-> & _). destruct H' as (-> & _).
+  now apply Hne.
+Qed.
+
+Theorem dg_parse_injective : forall bs bs' d h pl tg d' h' pl' tg' rest,
+  dg_decode bs = Some (d, h, pl, tg, rest) -> dg_decode bs' = Some (d', h', pl', tg', rest) ->
+  bs <> bs' -> (h, pl, tg) <> (h', pl', tg').
+Proof.
+  intros bs bs' d h pl tg d' h' pl' tg' rest H H' Hne E. injection E as <- <- <-.
+  apply dg_decode_spec in H. apply dg_decode_spec in H'. destruct H as (-> & _). destruct H' as (-> & _).
+  now apply Hne.
+Qed.
+
+Theorem ct_parse_injective : forall bs bs' d h tg d' h' tg' rest,
+  ct_decode bs = Some (d, h, tg, rest) -> ct_decode bs' = Some (d', h', tg', rest) ->
+  bs <> bs' -> (h, tg) <> (h', tg').
+Proof.
+  intros bs bs' d h tg d' h' tg' rest H H' Hne E. injection E as <- <-.
+  apply ct_decode_spec in H. apply ct_decode_spec in H'. destruct H as (-> & _). destruct H' as (-> & _).
+  now apply Hne.
+Qed.
+
+(* equal header slices carry equal fields (the fields are a function of the authenticated bytes) *)
+Theorem st_fields_of_header : forall bs bs' d d' h pl pl' tg tg' rest rest',
+  st_decode bs = Some (d, h, pl, tg, rest) -> st_decode bs' = Some (d', h, pl', tg', rest') ->
+  d = d' /\ lenN pl = lenN pl'.
+Proof.
+  intros bs bs' d d' h pl pl' tg tg' rest rest' H H'.
+  apply st_decode_spec in H. apply st_decode_spec in H'.
+  destruct H as (_ & _ & P). destruct H' as (_ & _ & P'). rewrite P in P'. now injection P'.
+Qed.
